@@ -24,10 +24,10 @@ type vGateWorld struct {
 	base   map[string]*userProfile
 }
 
-var vGateUsers = []string{"alice", "root", "auto", "bob", "svc", "carol"}
+var vGateUsers = []string{"alice", "root", "auto", "bob", "svc", "carol", "admin2"}
 
 func newGateWorld(webui []string) *vGateWorld {
-	w := newWorld(vWorldOpts{CertCfg: []string{"password", "U2F", "IPCertificate"}, WebUICfg: webui, AdminUsers: []string{"root"}, CLITokens: true})
+	w := newWorld(vWorldOpts{CertCfg: []string{"password", "U2F", "IPCertificate"}, WebUICfg: webui, AdminUsers: []string{"root", "admin2"}, CLITokens: true})
 	w.st.Config.Base.AutomationAdmins = []string{"auto"}
 	w.st.Config.Base.AutomationUsers = []string{"svc"}
 	w.st.Config.Base.EnableLocalTOTP = true
@@ -139,6 +139,16 @@ func (g *vGateWorld) applyGateCred(q *vReq, cred map[string]interface{}) {
 			q.Cookies[authCookieName] = w.badCookie("key", user, lvl)
 		case "kind_cli":
 			q.Cookies[authCookieName] = w.badCookie("kind_cli", user, lvl)
+		case "decoy":
+			// the actor's own good cookie LAST, and before it, under the same name, the password-only session of somebody
+			// else (a browser never sends that; an attacker's client can): the request is the last cookie's
+			if q.Headers == nil {
+				q.Headers = map[string]string{}
+			}
+			q.Headers["Cookie"] = authCookieName + "=" + w.mintCookie("bob", AuthTypePassword, 0)
+			q.Cookies[authCookieName] = w.mintCookie(user, lvl, 0)
+		default:
+			q.Cookies[authCookieName] = w.badCookie(variant, user, lvl)
 		}
 	case "basic":
 		if variant == "ok" {
@@ -163,8 +173,14 @@ func (g *vGateWorld) probe(c map[string]interface{}, idx int) map[string]interfa
 		actor = "alice"
 	}
 	target := actor
-	if vStr(c, "target") == "other" {
+	switch vStr(c, "target") {
+	case "other":
 		target = "bob"
+	case "otheradmin": // somebody else who is an administrator
+		target = "root"
+		if actor == "root" {
+			target = "admin2"
+		}
 	}
 	method := vStr(c, "method")
 	q := vReq{Method: method, Headers: map[string]string{}}
@@ -196,6 +212,9 @@ func (g *vGateWorld) probe(c map[string]interface{}, idx int) map[string]interfa
 		act := map[string]string{"update": "Update", "disable": "Disable", "delete": "Delete"}[op[strings.Index(op, "_")+1:]]
 		form.Set("action", act)
 		form.Set("name", "renamed")
+	case "vipotp":
+		q.Path = vipAuthPath
+		form.Set("OTP", "123456")
 	case "u2fregbegin":
 		q.Path = u2fRegustisterRequestPath + target
 	case "webauthnregbegin":
@@ -308,8 +327,13 @@ func (g *vGateWorld) probe(c map[string]interface{}, idx int) map[string]interfa
 	if w.signedTokens(r) > 0 {
 		effects["signed"] = true
 	}
+	cookieUser := "none"
 	if ck := r.Cookie(authCookieName); ck != nil && ck.Value != "" {
 		effects["cookie"] = true
+		cookieUser = "unreadable"
+		if info, err := w.st.getAuthInfoFromAuthJWT(ck.Value); err == nil {
+			cookieUser = info.Username
+		}
 	}
 	body := string(r.Body)
 	switch op {
@@ -331,7 +355,7 @@ func (g *vGateWorld) probe(c map[string]interface{}, idx int) map[string]interfa
 	if id == "" || id == "-" {
 		id = "none"
 	}
-	return map[string]interface{}{"effects": el, "identity": id, "panic": r.Panic != "", "class": r.Class(), "status": r.Status, "xvar": xvar, "dirnote": dirNote}
+	return map[string]interface{}{"effects": el, "identity": id, "panic": r.Panic != "", "class": r.Class(), "status": r.Status, "xvar": xvar, "dirnote": dirNote, "cookieUser": cookieUser}
 }
 
 // the ways a request can come from another site (C06: all of them must be refused state changes)
